@@ -237,16 +237,17 @@ Definition set_balancer (c : cstate) (s : svc) (o : option svcobj) (k : oracle) 
             let res0 := if ok then Success else ErrorNoRetry in
             let res1 := if skey_eqb prev_key (key_of a' s) then res0 else ReprocessAll in
             let changed := negb (ips_eqb (cv_status v) (o_status o)) || negb (opt_pool_eqb (cv_annot v) (o_annot o)) in
-            if negb changed then Some {| oc_state := c'; oc_sync := res1; oc_write := None |}
+            (* an address held before (in memory, or recorded in the status) is no longer held *)
+            let rel := fun ips : list ip =>
+                         match ips with
+                         | [] => false
+                         | _ => negb (subset_ips ips (ips_of a' s)) &&
+                                match pool_for (by_name (s_pools a')) ips with Some _ => true | None => false end
+                         end in
+            let released := rel prev_ips || rel (o_status o) in
+            let res2 := if released then ReprocessAll else res1 in
+            if negb changed then Some {| oc_state := c'; oc_sync := res2; oc_write := None |}
             else
-              let rel := fun ips : list ip =>
-                           match ips with
-                           | [] => false
-                           | _ => negb (subset_ips ips (ips_of a' s)) &&
-                                  match pool_for (by_name (s_pools a')) ips with Some _ => true | None => false end
-                           end in
-              let released := rel prev_ips || rel (o_status o) in
-              let res2 := if released then ReprocessAll else res1 in
               Some {| oc_state := c'; oc_sync := if k_write k then res2 else Error;
                       oc_write := Some (cv_status v, cv_annot v) |}
         end
